@@ -100,7 +100,7 @@ def write_replay(pid, r, label, ob, sol, outdir, known=False, want_status=False)
 
 def run_native(path):
     """runs replay/native.py on the replay file under the repo's interpreter; exit 1 = failure reproduced on the real code"""
-    env = dict(os.environ, JAX_PLATFORMS="cpu", PYTHONPATH="/repo", PYTHONWARNINGS="ignore")
+    env = dict(os.environ, JAX_PLATFORMS="cpu", PYTHONPATH=os.environ.get("REX_REPO", "/repo"), PYTHONWARNINGS="ignore")
     try:
         p = subprocess.run([VENV_PY, os.path.join(VERIF, "replay", "native.py"), path], capture_output=True, text=True, timeout=300, env=env)
     except subprocess.TimeoutExpired:
